@@ -42,6 +42,7 @@ func checkC08(c *core.Ctx) {
 	p := c.P
 	c.Explain = "Structural clauses of 'written checksums are correct; verification accepts exactly the correct ones', decided on the six emitters/verifiers (IPv4, TCP, UDP, ICMPv4, ICMPv6, GRE), on the shared pseudo-header helper and on checksum.go: (R8.1) on the ComputeChecksums path both checksum bytes (position taken from the final PutUint16 of x.Checksum) are stored as 0 before the summing call, the sum covers the header only for IPv4 and header+payload otherwise, the folded sum is what is stored into x.Checksum and then written; (R8.2) the protocol number passed to the pseudo-header sum is the same constant in SerializeTo, VerifyChecksum (and ComputeChecksum) of a type and is the IPProtocol whose metadata row decodes to that layer; (R8.3) each verifier returns Valid = (Fold(sum - stored) == stored) up to a protocol-specific disjunct, Correct = that folded value, Actual = stored, over contents+payload (contents only for IPv4); (R8.4) a post-fold map in the emitter (UDP 0 -> 0xffff) is applied by the verifier too; (R8.5) pseudo-header sums are consumed only by the shared helper, which adds protocol and both halves of the length; (R8.6) recognised-shape check of FoldChecksum (fold repeated until no carry) and ComputeChecksum (even byte <<8, odd byte unshifted, odd tail <<8, stride 2) — a shape that is recognised and wrong is a violation, an unrecognised one is undecided. Not decided: RFC 1071 arithmetic for all inputs, single-bit-flip detection."
 	verifyVisitsEveryLayer(c, c.Rule("R8.8", "T", "Packet.VerifyChecksums visits every layer: its loop ends only when the list is exhausted or with an error"))
+	narrowAddsIn(c, c.Rule("R8.10", "T", "the checksum helpers add nothing in uint8/uint16"))
 	pseudoHeaderHeadroom(c, c.Rule("R8.9", "D", "the partial sum a pseudo-header helper returns leaves headroom for the 32-bit accumulation that follows"))
 	r7 := c.Rule("R8.7", "T", "after the checksum has been computed over the buffer only the checksum field is written")
 	r1 := c.Rule("R8.1", "T", "emit: zero both checksum bytes -> sum the right span -> store the folded value -> write it")
